@@ -43,7 +43,21 @@ def hh_universe(data, cfg):
     for v in (long1, long2, b"\0" * min(mkl, 4)):
         if v not in out:
             out.append(v)
-    return out[:24]
+    # equal-length keys that agree on a long prefix (8 bytes, or all but the last byte): comparisons that
+    # look at a prefix or at whole machine words only would confuse them
+    pre = (base * 8)[:8]
+    fam = []
+    if mkl >= 9:
+        fam += [pre + b"a", pre + b"b", pre + b"\0", (pre + b"a" * 8)[:mkl], (pre + b"b" * 8)[:mkl], (pre + b"a" * 7 + b"b")[:mkl] if mkl >= 16 else pre + b"ab"]
+    if mkl >= 2:
+        stem = (base * mkl)[: mkl - 1]
+        fam += [stem + b"a", stem + b"b"]
+    out = fam[:6] + out
+    seen = []
+    for v in out:
+        if v not in seen:
+            seen.append(v)
+    return seen[:28]
 
 
 def t_eff(sk, t):
@@ -129,7 +143,7 @@ class NoOverCount:
                 self.nt.add("all_rows_shared")
 
     def __call__(self, touched, step):
-        for i in sorted(touched):
+        for i in range(self.w.n):  # all sketches: state must not be shared between sketch objects
             self.check_sketch(i)
 
     def flags(self):
@@ -183,7 +197,7 @@ class Dominance:
                     raise Violation(f"sketch {i}: majority key {k!r} (f={f} of N={N}) is not first in query(1,1): {top}", "majority-not-first")
 
     def __call__(self, touched, step):
-        for i in sorted(touched):
+        for i in range(self.w.n):  # all sketches: state must not be shared between sketch objects
             self.check_sketch(i)
 
     def flags(self):
